@@ -89,6 +89,10 @@ func verifH_C07_multi() {
 		text += " GROUP BY " + gcol
 	}
 	verifTag("query", text)
+	var mgr RelationManager = rm
+	if verifParam("real", 0) == 1 {
+		mgr = verifRealize(rm, []string{"t", "t1", "t2"})
+	}
 	stmt, perr := parseSQL(text)
 	verifAssert(perr == nil, "parses")
 	if perr != nil {
@@ -99,7 +103,7 @@ func verifH_C07_multi() {
 	if !isSel {
 		return
 	}
-	rows, _, err := EvaluateSelect(sel, rm)
+	rows, _, err := EvaluateSelect(sel, mgr)
 	verifAssert(err == nil, "select-ok")
 	if err != nil {
 		return
